@@ -2429,6 +2429,7 @@ class Engine:
                 out.append((st1, v))
                 continue
             st1.trace.append(('yield', v))
+            self.yield_havoc(st1)
             out.append((st1, V('obj', oid='sent!%d' % next(self.counter))))
         return out
 
@@ -2445,8 +2446,20 @@ class Engine:
                 continue
             r = V('obj', oid='returned!%d' % next(self.counter))
             st1.trace.append(('yield-from', v, r))
+            self.yield_havoc(st1)
             out.append((st1, r))
         return out
+
+    def yield_havoc(self, st):
+        """while a generator is suspended other code runs: the fields the contract lists under
+        opts['yield_havoc'] = [(object name, field)] hold unknown values afterwards"""
+        for objname, field in self.contract.opts.get('yield_havoc', ()):
+            ref = st.env.get(objname)
+            if ref is None or ref.k != 'ref':
+                continue
+            kind = self.contract.field_kind(ref.cls, field)
+            st.objs.setdefault(ref.oid, {})[field] = self.sym_of_kind(
+                kind, '%s.%s@resumed!%d' % (ref.oid, field, next(self.counter)))
 
     def ex_Await(self, e, st):
         raise Unsupported(e, 'await')
